@@ -64,6 +64,10 @@ struct State {
     log: Vec<Mutation>,
     snap: Option<SnapCfg>,
     fail_at: Option<usize>,
+    /// the failing mutation, when it is the creation of a file that is about
+    /// to be written, leaves an EMPTY file behind (a write torn right after
+    /// the file came into existence)
+    torn: bool,
     fault_injected: bool,
     kinds: Option<Vec<String>>,
 }
@@ -111,6 +115,14 @@ pub fn install() {
                     }
                 }
                 if fail {
+                    let torn = with_state(|s| s.torn);
+                    if torn && kind == "fs" && op == "create_file" {
+                        let p = std::path::Path::new(place);
+                        if let Some(dir) = p.parent() {
+                            let _ = std::fs::create_dir_all(dir);
+                        }
+                        let _ = std::fs::write(p, b"");
+                    }
                     return Err(io::Error::other(
                         "verif: injected I/O error"
                     ))
@@ -132,8 +144,15 @@ pub fn begin(
         s.snap = snap;
         s.fail_at = fail_at;
         s.fault_injected = false;
+        s.torn = false;
         s.kinds = kinds.map(|k| k.iter().map(|x| x.to_string()).collect());
     });
+}
+
+/// Like `begin` with a failing mutation that tears the write (see `torn`).
+pub fn begin_torn(fail_at: usize) {
+    begin(None, Some(fail_at), None);
+    with_state(|s| s.torn = true);
 }
 
 /// Stops; returns the mutations seen and whether the fault was injected.
